@@ -174,6 +174,8 @@ func wsPushHandler(req *http.Request, resp *http.Response) {
 	}
 }
 
+var srv *http.Server
+
 var paths = []string{"/", "/a", "/index.html", "/api/v1/items", "/x-y_z.0"}
 
 // ---- one HTTP exchange ------------------------------------------------------------------
@@ -520,6 +522,15 @@ func wsBundled(w *world, k int) {
 				run.Count("ws_messages_verified", 1)
 			}
 		}
+		if r.Chance(1, 3) {
+			// the application registers one more route while this session is still open (its
+			// handler has not returned); the route is in use from the next exchange on
+			vt.Quiesce()
+			late := fmt.Sprintf("/late-%d", k)
+			srv.HandleFunc(late, handler)
+			paths = append(paths, late)
+			run.Count("routes_registered_while_a_websocket_session_is_open", 1)
+		}
 		cli.Close()
 	})
 	time.Sleep(20 * time.Millisecond)
@@ -748,7 +759,7 @@ func child(t *testing.T) {
 		if w == nil {
 			os.Exit(run.Finish("", nil))
 		}
-		srv := http.NewHTTP("", "", "10.0.0.1", "8080")
+		srv = http.NewHTTP("", "", "10.0.0.1", "8080")
 		for _, p := range paths {
 			srv.HandleFunc(p, handler)
 		}
